@@ -1265,3 +1265,49 @@ def main(ctx):
 
     call_sequences(ctx, "call-sequences", seq_pool, SEQ_CALLS, seq_run, lambda: [coords, erandom], depth=3, nodedup_depth=3,
                    mutations=[("cov", "scale"), ("gp", "reverse")], mutate=seq_mut, result_edits=True)
+
+    # ------------------------------------------------------------ error path: rejected calls and the generator
+    # a call that is rejected (invalid range, impossible request) must not have drawn from the caller's generator:
+    # the next legitimate call on the SAME generator gives what an equally seeded fresh generator gives
+    def one_rejected(case, rec):
+        style, seed, bad, good = case
+
+        def mk():
+            return np.random.RandomState(seed) if style == "legacy" else np.random.default_rng(seed)
+
+        def run(call, rng):
+            if call[0] == "randsphere":
+                return [np.asarray(v) for v in coords.randsphere(call[1], ra_range=call[2], dec_range=call[3], rng=rng)]
+            if call[0] == "randcap":
+                return [np.asarray(v) for v in coords.randcap(call[1], call[2], call[3], call[4], rng=rng)]
+            if call[0] == "indices":
+                return [np.asarray(erandom.random_indices(call[1], call[2], unique=call[3], rng=rng))]
+            raise ValueError(call)
+
+        if style == "legacy" and good[0] == "indices":
+            return
+        rng = mk()
+        try:
+            run(bad, rng)
+            return rec.ok(case, outcome="not-rejected", nontrivial=False, calls=1)   # nothing to check: the call is accepted
+        except Exception:
+            pass
+        try:
+            got = run(good, rng)
+            ref = run(good, mk())
+        except Exception as e:
+            return rec.fail(case, "the legitimate call %r raised %s: %s" % (good, type(e).__name__, e))
+        for a, b in zip(got, ref):
+            if a.shape != b.shape or a.tobytes() != b.tobytes():
+                return rec.fail(case, "after the rejected call %r the call %r on the same generator gives %r; an equally seeded "
+                                      "fresh generator gives %r (the rejected call drew from the generator)" % (bad, good, a.tolist(), b.tolist()))
+        rec.ok(case, outcome="rejected-then-ok", nontrivial=True, calls=3)
+
+    BAD_CALLS = [("randsphere", 3, None, [-95.0, 10.0]), ("randsphere", 3, None, [10.0, 95.0]), ("randsphere", 3, [10.0, 400.0], None),
+                 ("randsphere", 3, [-10.0, 40.0], [0.0, 10.0]), ("randsphere", 3, [10.0], None), ("indices", 3, 5, True),
+                 ("randcap", 3, 10.0, 95.0, 1.0), ("randcap", 3, 10.0, 20.0, -1.0), ("randcap", 3, 10.0, 20.0, 200.0)]
+    GOOD_CALLS = [("randsphere", 3, None, None), ("randsphere", 2, [10.0, 35.0], [-25.0, 15.0]), ("randcap", 3, 37.0, 45.0, 1.0),
+                  ("indices", 5, 3, True)]
+    runits = [(st, sd, b, g) for st in ("legacy", "new") for sd in (0, 1) for b in BAD_CALLS for g in GOOD_CALLS]
+    ctx.lattice("rejected-calls", runits, one_rejected, engine="environment",
+                bounds=dict(rejected=[repr(b) for b in BAD_CALLS], then=[repr(g) for g in GOOD_CALLS], generators=["RandomState", "default_rng"]))
